@@ -28,7 +28,7 @@ RATES = [3e9, 2.4e9, 1.7e8, 1e6, 48000.0, 1.5e9, 2999999987.0, 104729.0, 2.79396
 
 
 def required(tier):
-    b = {'kind:arith': 100, 'kind:record': 30, 'duration:exact-multiple': 50, 'duration:ulp-neighbour': 30, 'duration:random': 30, 'duration:just-below-boundary': 100, 'duration:many-blocks': 100, 'record:from_data-longer-than-input': 8, 'record:second-recording-same-source': 20,
+    b = {'kind:arith': 100, 'kind:record': 30, 'duration:exact-multiple': 50, 'duration:ulp-neighbour': 30, 'duration:random': 30, 'duration:just-below-boundary': 100, 'duration:many-blocks': 100, 'record:from_data-longer-than-input': 8, 'record:second-recording-same-source': 20, 'record:template-on': 20, 'record:template-off': 20,
          'record:obs_length-mode': 10, 'record:num_blocks-mode': 10, 'bits:4': 20, 'array': 20}
     return {'buckets': b, 'counters': {'durations_judged': 500, 'ledgered_requests': 100}, 'checks': 3000, 'nontrivial': 100}
 
@@ -213,13 +213,19 @@ def run_case(c, R):
     stem = os.path.join(tmp, f"c20_{c['_idx']}")
     t0 = float(src.t_start)
     R.bucket('record:' + c['mode'] + '-mode')
+    # with and without the library's header template; the first recording may start its packet count anywhere
+    tmpl = bool(common.stratum(c['_idx'], 201, 2))
+    pkt0 = 4096 if common.stratum(c['_idx'], 202, 2) else 0
+    hd1 = {'PKTIDX': pkt0} if pkt0 else {}
+    R.bucket('record:template-' + ('on' if tmpl else 'off'))
     if c['mode'] == 'num_blocks':
-        rec = work_raw.do_record(stg, cfg, stem, rvb=rvb, src=src)
+        rec = work_raw.do_record(stg, cfg, stem, rvb=rvb, src=src, load_template=tmpl, header_dict=dict(hd1))
         n = cfg['nblocks']
     else:
         T = (cfg['nblocks'] + c['frac']) * float(rvb.time_per_block)
         adm, x = blocks_for(T, tpb)
-        rec = work_raw.do_record(stg, cfg, stem, rvb=rvb, src=src, num_blocks=None, obs_length=T, length_mode='obs_length')
+        rec = work_raw.do_record(stg, cfg, stem, rvb=rvb, src=src, num_blocks=None, obs_length=T, length_mode='obs_length', load_template=tmpl,
+                                 header_dict=dict(hd1))
         n = rvb.num_blocks
         R.check(n in adm, 'record-obs_length-blocks', T=T, got=int(n), admissible=sorted(adm))
         band = 1 + Fraction(1, 10 ** 9)
@@ -244,13 +250,13 @@ def run_case(c, R):
     for bi, blk in enumerate(blocks):
         h = blk['header']
         R.check(near(guppi.parse_value(h['SCANLEN']), n * tpb, 2), 'header-SCANLEN', got=h['SCANLEN'], want=float(n * tpb))
-        R.check(guppi.parse_value(h['PKTIDX']) == bi * spb, 'header-PKTIDX', got=h['PKTIDX'], want=bi * spb)
+        R.check(guppi.parse_value(h['PKTIDX']) == pkt0 + bi * spb, 'header-PKTIDX', got=h['PKTIDX'], want=pkt0 + bi * spb)
         R.check(guppi.parse_value(h['PKTSTOP']) - guppi.parse_value(h['PKTSTART']) == n * spb, 'header-PKTSTOP', got=h['PKTSTOP'], want=n * spb)
     # ---- a second recording from the same source: it draws, and advances the clock by, exactly its own samples again
     if c['_idx'] % 16 == 15 and n >= 1:
         R.bucket('record:second-recording-same-source')
         t1 = float(src.t_start)
-        rec2 = work_raw.do_record(stg, cfg, stem + '_second', rvb=rvb, src=src)
+        rec2 = work_raw.do_record(stg, cfg, stem + '_second', rvb=rvb, src=src, load_template=tmpl)
         n2 = cfg['nblocks']
         sizes2 = [s_ for s_, _ in rec2['delivered']]
         want2 = n2 * spb * P + M * P
@@ -262,6 +268,15 @@ def run_case(c, R):
         try:
             b2 = work_raw.read_blocks(rec2['files'])
             R.check(len(b2) == n2, 'blocks-written:second-recording', got=len(b2), want=n2)
+            for bi2, blk2 in enumerate(b2):
+                h2 = blk2['header']
+                # an ordinary (default-header) recording after one that started its packet count elsewhere: counts start afresh
+                R.check(guppi.parse_value(h2['PKTIDX']) == bi2 * spb, 'header-PKTIDX:second-recording', got=h2['PKTIDX'], want=bi2 * spb,
+                        template=tmpl, first_started_at=pkt0)
+                R.check(guppi.parse_value(h2['PKTSTOP']) - guppi.parse_value(h2['PKTSTART']) == n2 * spb and
+                        guppi.parse_value(h2['PKTSTOP']) == n2 * spb, 'header-PKTSTOP:second-recording', got=h2['PKTSTOP'], want=n2 * spb,
+                        template=tmpl, first_started_at=pkt0)
+                R.check(near(guppi.parse_value(h2['SCANLEN']), n2 * tpb, 2), 'header-SCANLEN:second-recording', got=h2['SCANLEN'])
         except guppi.GuppiError as e:
             R.violate('unparseable-recording:' + e.key + ':second-recording', msg=str(e))
         for f_ in rec2['files']:
